@@ -7,7 +7,9 @@
 (* Enc is defined (non-empty value list) for every type; and no component may be able to   *)
 (* receive the schema of another type.                                                     *)
 (*   L2Sound        - the plain statement; violated by the pinned design (MC_C18_pinned)   *)
-(*   L2SoundModulo  - the statement outside the listed finding classes (FindingsC18)       *)
+(*   L2SoundModulo  - the statement outside the classes of the OPEN findings (FindingsC18); *)
+(*                    the model without the repairs of F-C18-8, 9, 11 (MC_C18_unrepaired)   *)
+(*                    violates it: those behaviours are refuted variants                    *)
 EXTENDS Gen_C18, GoGenModel, FindingsC18
 
 (* one invariant, so that the model's output and the encodings are computed once per state *)
@@ -24,20 +26,21 @@ Judge(modulo) ==
    /\ UsesTypeNameGen(gopt) => NamesChosen(gty, gopt, s2, c2)
    (* F-C18-6: only with component export and mutually recursive types can a name receive a foreign schema *)
    /\ ForeignCands(gopt, m.st) # {} => (modulo /\ ExportsComponents(gopt) /\ MutualRec(gty))
-   /\ IF missing # {} THEN modulo /\ (KnownMissing(gty, gopt, missing)       \* F-C18-7, F-C18-8
+   (* (the classes of the repaired findings F-C18-8, 9, 11 excuse nothing any more) *)
+   /\ IF missing # {} THEN modulo /\ (TngMissing(gty, gopt, missing)         \* F-C18-7
                                       \/ (ghist = "fresh" /\ ReuseMissing(First, gty, gopt, missing)))    \* F-C18-10
       ELSE \A i \in DOMAIN gvs :
               LET v == Enc(gty, gvs[i])
                   fails == Fails(s2, c2, v, <<>>)
                   ref == RefAccepts(s2, c2, v) IN
               /\ ref = ({f \in fails : f.kind # "format"} = {})          \* the two formulations agree
-              /\ IF modulo THEN \A f \in fails : KnownFailure(gty, f) \/ RootPtrReused(Fst, f) ELSE fails = {}
+              /\ IF modulo THEN \A f \in fails : KnownFailure(gty, f) ELSE fails = {}
 
 (* the parent-chain cycle detection of the model finds a cycle exactly for the recursive types  *)
 (* (GoTypes!Recursive, structural); with ThrowErrorOnCycle those are refused, all others judged *)
 CycleDetectionExact == ghist = "none" => ModelCycles(gty, gopt) = Recursive(gty, UsesAllFields(gopt))
 Refused == gopt = "throw" /\ Recursive(gty, FALSE)
 L2Sound == OptOK => (~Diverges(gty) /\ CycleDetectionExact /\ (Refused \/ Judge(FALSE)))
-L2SoundModulo == OptOK => IF Diverges(gty) THEN SelfEmbedding(gty) \/ SelfContainer(gty)
+L2SoundModulo == OptOK => IF Diverges(gty) THEN SelfEmbedding(gty)
                           ELSE CycleDetectionExact /\ (Refused \/ Judge(TRUE))
 =============================================================================
